@@ -6,7 +6,7 @@
 (* overflows, never both; rounding is monotone; sign symmetric.  This         *)
 (* validates the operator definitions, not rjson.                             *)
 EXTENDS Floats, TLC, FiniteSets
-Small == [mb |-> 3, eb |-> 3, hi |-> 1000, lo |-> -1000]
+Small == [mb |-> 3, eb |-> 3, hi |-> 1000, lo |-> -1000, safe |-> 1]   \* values below 10 are finite (max finite is 15)
 VARIABLES d, ex
 Digs(n) == IF n < 10 THEN <<n>> ELSE IF n < 100 THEN <<n \div 10, n % 10>> ELSE <<n \div 100, (n \div 10) % 10, n % 10>>
 \* literal record as Lit would produce it (trailing zeros stripped into E)
